@@ -20,6 +20,7 @@
 #include <Bpp/App/ApplicationTools.h>
 #include <Bpp/Exceptions.h>
 #include <Bpp/Io/BppODiscreteDistributionFormat.h>
+#include <Bpp/Io/BppOParametrizableFormat.h>
 #include <Bpp/Io/OutputStream.h>
 #include <Bpp/Numeric/DataTable.h>
 #include <Bpp/Numeric/ParameterList.h>
@@ -930,6 +931,32 @@ LAW(P1_distribution, RC, 6000, 200000, 220, "compound distribution (Invariant / 
     c.observe(string("probability error / ") + tn, ep / tol);
     CHECK(ev <= tol, "class " << i << " has value " << vf::dec(cats2[i]) << " after reading, " << vf::dec(cats[i]) << " before; text " << q(text));
     CHECK(ep <= tol, "class " << i << " has probability " << vf::dec(probs2[i]) << " after reading, " << vf::dec(probs[i]) << " before; text " << q(text));
+  }
+  // The same description with its argument list written by the plain Parametrizable overload of the parameter writer (the
+  // distribution writer above goes through the ParameterAliasable overload): same reading as above - parameters are written with
+  // 12 decimals whatever the precision of the caller's stream, which is handed back unchanged. Leaf families whose description
+  // is "Name(n=K,<parameters>)" only (no offset parameter: the reader needs a 'ParamOffset' marker for it).
+  const string nm = d->getName();
+  if (f.compounds == 0 && !f.simple && !f.uniform && (nm == "Gamma" || nm == "Gaussian" || nm == "Beta" || nm == "Exponential" || nm == "TruncExponential") && !d->hasParameter("offset")) {
+    ostringstream os2; vector<string> wn;
+    {
+      StlOutputStreamWrapper out(&os2); out.setPrecision(prec); out << nm << "(n=" << ncat;
+      BppOParametrizableFormat().write(static_cast<const Parametrizable&>(*d), out, wn, true);
+      CHECK(out.getPrecision() == prec, "BppOParametrizableFormat::write(Parametrizable) left the stream precision at " << out.getPrecision() << " instead of " << prec);
+      out << ")";
+    }
+    const string text2 = os2.str();
+    c.desc << " and (Parametrizable writer) as " << q(text2);
+    c.label("parametrizable_writer");
+    DD r2;
+    try { BppODiscreteDistributionFormat rd(false); r2 = rd.readDiscreteDistribution(text2, true); }
+    catch (bpp::Exception& e) { CHECK(false, "readDiscreteDistribution raised on the description " << q(text2) << " written through the Parametrizable overload: " << what1(e)); }
+    CHECK(r2->getName() == nm && r2->getNumberOfCategories() == ncat, "read back a " << r2->getName() << " with " << r2->getNumberOfCategories() << " classes from " << q(text2));
+    vector<double> cats3 = r2->getCategories(), probs3 = r2->getProbabilities();
+    for (size_t i = 0; i < ncat; ++i) {
+      CHECK(std::abs(cats[i] - cats3[i]) / max(1.0, std::abs(cats[i])) <= tol, "class " << i << " has value " << vf::dec(cats3[i]) << " after reading, " << vf::dec(cats[i]) << " before; text " << q(text2));
+      CHECK(std::abs(probs[i] - probs3[i]) <= tol, "class " << i << " has probability " << vf::dec(probs3[i]) << " after reading, " << vf::dec(probs[i]) << " before; text " << q(text2));
+    }
   }
 }
 
